@@ -30,7 +30,7 @@ def gen_ops(rng, n):
             ops.append(("EnterAuto", rng.random() < 0.8))
             depth += 1
         elif r < 0.88 and depth > 0:
-            ops.append(("ExitAuto",))
+            ops.append(("ExitAuto", rng.choice(["normal", "normal", "RuntimeError", "KeyboardInterrupt", "SystemExit"])))
             depth -= 1
         else:
             ops.append(("Resume",))
@@ -63,6 +63,8 @@ class Runner:
         self.a = Aspire(log_likelihood=self.tgt.log_likelihood, log_prior=self.tgt.log_prior, dims=1, parameters=["x_0"], flow=flow,
                         xp=self.NS["numpy"], flow_backend="fake")
         self.errors = []
+        self.nexit = 0
+        self.exits = []
         self.last_fit_overwrote = False
 
     def do(self, o):
@@ -92,7 +94,17 @@ class Runner:
                 self.cms.append(cm)
             elif o[0] == "ExitAuto":
                 if self.cms:
-                    self.cms.pop().__exit__(None, None, None)
+                    # "leaving" is any exit path: normally, or with an exception travelling through the with-statement (an error in the
+                    # body, Ctrl-C during a run, sys.exit) — the model's ExitAuto does not depend on which
+                    how = {"normal": None, "RuntimeError": RuntimeError, "KeyboardInterrupt": KeyboardInterrupt,
+                           "SystemExit": SystemExit}[o[1] if len(o) > 1 else "normal"]
+                    if how is None:
+                        self.cms.pop().__exit__(None, None, None)
+                    else:
+                        exc = how("leaving the block")
+                        self.exits.append(how.__name__)
+                        if self.cms.pop().__exit__(how, exc, None):
+                            self.errors.append((o, f"auto_checkpoint swallowed {how.__name__}"))
                 elif hasattr(a, "_checkpoint_defaults"):
                     del a._checkpoint_defaults           # leaving the defaults installed by resume_from_file
             elif o[0] == "Resume":
@@ -164,20 +176,29 @@ def run(ctx):
         [("Sample", "SMC", True), ("Fit", 2, True, True), ("Resume",), ("Sample", "Importance", True), ("Sample", "SMC", False)],
         # an overwriting fit inside an active context, then SMC again (seeded change C14-a)
         [("EnterAuto", True), ("Sample", "SMC", False), ("Fit", 2, False, True), ("Sample", "SMC", False), ("ExitAuto",)],
+        # the block is left by Ctrl-C / sys.exit / an error; the same object then fits and samples WITHOUT a path (seeded change C14-d)
+        [("Fit", 1, True, False), ("EnterAuto", True), ("Sample", "SMC", False), ("ExitAuto", "KeyboardInterrupt"), ("Fit", 2, False, False),
+         ("Sample", "SMC", False), ("Resume",), ("Sample", "SMC", False)],
+        [("EnterAuto", True), ("Fit", 1, False, False), ("Sample", "ESMC", False), ("ExitAuto", "SystemExit"), ("Fit", 3, False, True),
+         ("Sample", "SMC", False)],
+        [("EnterAuto", False), ("Sample", "SMC", False), ("ExitAuto", "RuntimeError"), ("Fit", 2, False, True), ("Sample", "ESMC", False)],
     ]
     scripts = corpus + scripts
     root = tempfile.mkdtemp(prefix="c14_", dir=str(common.WORK))
     rows = []
     try:
         for si, ops in enumerate(scripts):
-            path = os.path.join(root, f"s{si}.h5")
+            path = os.path.join(root, common.ckpt_name(f"s{si}", si))
             r = Runner(path, si)
             tagmap = {"0": 0}             # real tag -> model flow id (fit counter)
             counter = 0
             obs_list = []
             was_bad = [False, False]
+            depth = 0                     # contexts open according to the script (Resume installs one level of defaults)
             for o in ops:
+                before = r.observe()
                 r.do(o)
+                depth = depth + 1 if o[0] == "EnterAuto" else max(0, depth - 1) if o[0] == "ExitAuto" else 1 if o[0] == "Resume" else depth
                 if o[0] == "Fit":
                     counter += 1
                     tagmap[f"{o[1]}.{r.nfit}"] = counter
@@ -190,14 +211,23 @@ def run(ctx):
                     bad_flow = under != ob["flow"]
                     bad_cfg = (ob["cfg"][1] if ob["cfg"] else None) != cs
                 prefix = [op_coq(q) for q in ops[: len(obs_list)]]
+                # an operation given no path, with every block already left, has no file to write to; if it changed the file and the
+                # file is now inconsistent, that is its own history (not one of the recorded no-overwrite findings)
+                outside = o[0] in ("Fit", "Sample") and not o[2] and depth == 0 and ob != before
+                if (bad_flow and not was_bad[0] or bad_cfg and not was_bad[1]) and outside:
+                    ctx.violation("file-written-after-every-block-was-left:" + o[0],
+                                  f"after {prefix[-1]} (no path given, no block open; blocks were left by {r.exits or ['normal exit']}): the file changed from "
+                                  f"{before} to {ob}", {"ops": prefix, "observed": str(ob), "blocks_left_by": r.exits})
+                    was_bad[0], was_bad[1] = bad_flow, bad_cfg
+                    continue
                 if bad_flow and not was_bad[0]:
                     ctx.violation("stale-flow:" + classify(ops[: len(obs_list)], "stale-flow", r.last_fit_overwrote),
                                   f"after {prefix[-1]}: file flow is {ob['flow']} but the stored checkpoint's particles were weighted under flow {ob['ckpt'][1]}",
-                                  {"ops": prefix, "observed": str(ob)})
+                                  {"ops": prefix, "observed": str(ob), "blocks_left_by": r.exits})
                 if bad_cfg and not was_bad[1]:
                     ctx.violation("config-names-other-sampler:" + classify(ops[: len(obs_list)]),
                                   f"after {prefix[-1]}: configuration sampler_type = {ob['cfg'][1] if ob['cfg'] else None} but the stored checkpoint was written by {ob['ckpt'][0]}",
-                                  {"ops": prefix, "observed": str(ob)})
+                                  {"ops": prefix, "observed": str(ob), "blocks_left_by": r.exits})
                 was_bad[0], was_bad[1] = bad_flow, bad_cfg
             ctx.count(json.dumps([op_coq(o) for o in ops]), any(o[0] == "Sample" and o[1] != "Importance" for o in ops), kind=f"len{len(ops)}")
             if len(ctx.samples) < 3 and len(ops) >= 3:
